@@ -20,6 +20,7 @@ fn replay(file: &str) -> ! {
         "miner-life/c04-burst" => replay_with(&c04::scenario_burst(tier).0, &v),
         "miner-life/c05" => replay_with(&c05::scenario(tier).0, &v),
         "miner-life/c05-burst" => replay_with(&c05::scenario_burst(tier).0, &v),
+        "miner-life/c05-tick-faults" => replay_with(&c05::scenario_tick_faults(tier).0, &v),
         "miner-life/c05-poor-debt" => replay_with(&c05::scenario_regime(tier, true).0, &v),
         "handover" => replay_with(&c13::scenario(tier).0, &v),
         "miner-life/c15-rich" => replay_with(&c15::scenario_regime(tier, false).0, &v),
